@@ -3,6 +3,7 @@ import DustVerif.Proofs.WrtSteps
     wire: not as a first transmission, not as a repair after a NACK, not as history for a late-joining reader.
     (Interpretation of DESIGN.md §5 C29: "delivered" = emitted by the writer at a time >= source timestamp +
     lifespan; the reader keeps no lifespan state, and dsim delivers a datagram at the instant it is sent.)
+    `step` is the worker of /repo main (purge before every mail, repair of D34); `stepAsIs` the pinned one.
     All theorems quantify over every state / event list of Model/WriterEnt.lean. -/
 namespace DustVerif.Wrt
 
@@ -153,73 +154,50 @@ theorem onAcknack_fresh (s : St) (rid base : Nat) (set : List Nat) (count : Nat)
   refine ⟨h2.1, freshData_append ?_ h2.2⟩
   exact freshData_of_subset h (ackProxies_data s.changes now rid base set count s.proxies)
 
-/-- C29 (one step): if no stored change has expired at the time an event is handled, nothing expired is sent while
-    handling it - first transmission by `write`, repair after an ACKNACK, history at a match - and the history is
-    still fresh afterwards -/
-theorem C29_step_sends_fresh (s : St) (e : Ev) (t : Int) (ht : e.now = some t ∨ e.now = none) (h : FreshAt s t) :
+/-- handling a mail on a history in which nothing has expired sends nothing expired (used for both workers) -/
+theorem mail_sends_fresh (s : St) (t : Int) (h : FreshAt s t) :
+    (∀ k v ts, FreshData s.qos t (methodWrite s k v ts t).2.dgrams ∧ FreshAt (methodWrite s k v ts t).1 t) ∧
+    (∀ rid base set count, FreshData s.qos t (onAcknack s rid base set count t).2.dgrams ∧
+      FreshAt (onAcknack s rid base set count t).1 t) :=
+  ⟨fun k v ts => ⟨(methodWrite_fresh s k v ts t h).2, (methodWrite_fresh s k v ts t h).1⟩,
+   fun rid base set count => ⟨(onAcknack_fresh s rid base set count t h).2, (onAcknack_fresh s rid base set count t h).1⟩⟩
+
+/-- C29 (one step, worker of /repo main): whatever the state and whatever the time at which a write call, an
+    ACKNACK or a worker iteration is handled - late timers included - nothing expired is sent while handling it
+    (first transmission, repair after a NACK, history for a reader matched earlier) and the history is fresh
+    afterwards. (remove_stale_writer_samples runs before the mail is handled, repair 5f97ba4 / D34.) -/
+theorem C29_step_sends_fresh (s : St) (e : Ev) (t : Int) (ht : e.now = some t) :
     FreshData s.qos t (step s e).2.dgrams ∧ FreshAt (step s e).1 t := by
+  have hq := (removeStale_frame s t).1
+  have hm := mail_sends_fresh (removeStale s t) t (removeStale_fresh s t)
+  rw [hq] at hm
   cases e with
   | write k v ts now =>
     have : now = t := by simpa [Ev.now] using ht
     subst this
-    exact ⟨(methodWrite_fresh s k v ts now h).2, (methodWrite_fresh s k v ts now h).1⟩
+    exact hm.1 k v ts
   | acknack rid base set count now =>
     have : now = t := by simpa [Ev.now] using ht
     subst this
-    exact ⟨(onAcknack_fresh s rid base set count now h).2, (onAcknack_fresh s rid base set count now h).1⟩
+    exact hm.2 rid base set count
   | tick now =>
     have : now = t := by simpa [Ev.now] using ht
     subst this
     exact C29_tick_sends_fresh s now
-  | matchReader rid rel tl =>
-    refine ⟨by simp only [step, Out.none]; exact freshData_nil _ _, ?_⟩
-    intro l hl c hc
-    simp only [step] at hl hc
-    rw [(matchReader_frame s rid rel tl).1] at hl
-    rw [(matchReader_frame s rid rel tl).2.2.2.2] at hc
-    exact h l hl c hc
-
-/-- the schedule hypothesis of the partial theorem: whenever a MAIL (write call or ACKNACK datagram) is handled at
-    time t, no stored change has reached its expiry: the worker's timer, which is armed for the earliest expiry
-    (time_until_stale_writer_sample), has fired - and remove_stale_writer_samples has run - before any mail is
-    handled at or after that instant. Worker iterations and matches are unconstrained. -/
-def Punctual : St → List Ev → Prop
-  | _, [] => True
-  | s, e :: es =>
-    (match e with
-     | .write _ _ _ now => FreshAt s now
-     | .acknack _ _ _ _ now => FreshAt s now
-     | _ => True) ∧ Punctual (step s e).1 es
+  | matchReader rid rel tl => simp [Ev.now] at ht
 
 /-- every event of the run sends only changes that have not expired at the time of that event -/
 def SendsFresh : St → List Ev → Prop
   | _, [] => True
   | s, e :: es => (∀ t, e.now = some t → FreshData s.qos t (step s e).2.dgrams) ∧ SendsFresh (step s e).1 es
 
-/-- C29 (partial: punctual stale-sample timer): along every event list in which no mail is handled at or after the
-    expiry of a stored change before the worker iteration of that instant, no expired change is ever sent.
-    Excluded: a late timer (D34), see `C29_no_expired_send_counterexample`. -/
-theorem C29_no_expired_send_partial (s : St) (evs : List Ev) (h : Punctual s evs) : SendsFresh s evs := by
+/-- C29 (full statement, worker of /repo main): NO event list - whatever the writes, ACKNACKs, matches, worker
+    iterations and their times, late timers included - makes the writer send a change whose source timestamp +
+    lifespan lies at or before the time of sending: first transmission, repair, history for a late joiner -/
+theorem C29_no_expired_send (s : St) (evs : List Ev) : SendsFresh s evs := by
   induction evs generalizing s with
   | nil => trivial
-  | cons e es ih =>
-    obtain ⟨h1, h2⟩ := h
-    refine ⟨?_, ih _ h2⟩
-    intro t ht
-    cases e with
-    | write k v ts now =>
-      have : now = t := by simpa [Ev.now] using ht
-      subst this
-      exact (C29_step_sends_fresh s _ now (Or.inl rfl) h1).1
-    | acknack rid base set count now =>
-      have : now = t := by simpa [Ev.now] using ht
-      subst this
-      exact (C29_step_sends_fresh s _ now (Or.inl rfl) h1).1
-    | tick now =>
-      have : now = t := by simpa [Ev.now] using ht
-      subst this
-      exact (C29_tick_sends_fresh s now).1
-    | matchReader rid rel tl => simp [Ev.now] at ht
+  | cons e es ih => exact ⟨fun t ht => (C29_step_sends_fresh s e t ht).1, ih _⟩
 
 /-- C29 (expired at write): a sample that is already expired when it is written consumes a sequence number but is
     neither stored in the RTPS history nor sent -/
@@ -232,23 +210,69 @@ theorem C29_expired_at_write_not_sent (s : St) (k : Nat) (v : Int) (ts now : Int
     · exact ⟨he.2.1, he.2.2.1⟩
     · rw [hx] at he; cases he.1
 
-/-- D34, as-is: lifespan 1 s, a reliable reader, one sample written at t = 0 (its DATA is lost on the wire, which
-    the writer cannot see); the reader's ACKNACK(base 1, set {1}) is handled at t = 1.05 s BEFORE the worker
-    iteration of that instant (late timer): the writer repairs DATA(sn 1) 50 ms after its expiry. The run is not
-    punctual; the unconditional statement "no event list sends an expired change" is false for the code as it is. -/
+-- ------------------------------------------------------------------------------------------- before the repair of D34
+
+/-- runs of the worker of the pinned commit (`stepAsIs`: the mail is handled before the purge) -/
+def runAsIs (s : St) : List Ev → St
+  | [] => s
+  | e :: es => runAsIs (stepAsIs s e).1 es
+
+def SendsFreshAsIs : St → List Ev → Prop
+  | _, [] => True
+  | s, e :: es => (∀ t, e.now = some t → FreshData s.qos t (stepAsIs s e).2.dgrams) ∧ SendsFreshAsIs (stepAsIs s e).1 es
+
+/-- the schedule hypothesis under which the pinned worker was correct: whenever a MAIL (write call or ACKNACK) is
+    handled at time t, no stored change has reached its expiry, i.e. the stale-sample timer was never late -/
+def Punctual : St → List Ev → Prop
+  | _, [] => True
+  | s, e :: es =>
+    (match e with
+     | .write _ _ _ now => FreshAt s now
+     | .acknack _ _ _ _ now => FreshAt s now
+     | _ => True) ∧ Punctual (stepAsIs s e).1 es
+
+/-- what held before the repair: no expired change is sent along any PUNCTUAL event list -/
+theorem C29_no_expired_send_asis_partial (s : St) (evs : List Ev) (h : Punctual s evs) : SendsFreshAsIs s evs := by
+  induction evs generalizing s with
+  | nil => trivial
+  | cons e es ih =>
+    obtain ⟨h1, h2⟩ := h
+    refine ⟨?_, ih _ h2⟩
+    intro t ht
+    cases e with
+    | write k v ts now =>
+      have : now = t := by simpa [Ev.now] using ht
+      subst this
+      exact ((mail_sends_fresh s now h1).1 k v ts).1
+    | acknack rid base set count now =>
+      have : now = t := by simpa [Ev.now] using ht
+      subst this
+      exact ((mail_sends_fresh s now h1).2 rid base set count).1
+    | tick now =>
+      have : now = t := by simpa [Ev.now] using ht
+      subst this
+      exact (C29_tick_sends_fresh s now).1
+    | matchReader rid rel tl => simp [Ev.now] at ht
+
+/-- D34, regression witness (pinned commit): lifespan 1 s, a reliable reader, one sample written at t = 0 (its DATA
+    is lost on the wire, which the writer cannot see); the reader's ACKNACK(base 1, set {1}) is handled at
+    t = 1.05 s BEFORE the worker iteration of that instant (late timer): the pinned worker repairs DATA(sn 1) 50 ms
+    after its expiry; the worker of /repo main answers the same ACKNACK with a GAP. -/
 def d34Q : Qos :=
   { depth := none, reliable := true, maxBlocking := some 100000000, maxSamples := none, maxInstances := none,
     maxSpi := none, lifespan := some 1000000000 }
 def d34Evs : List Ev := [.matchReader 0 true false, .write 1 10 0 0, .tick 0, .acknack 0 1 [1] 1 1050000000]
 
-theorem C29_no_expired_send_counterexample :
-    ¬ SendsFresh (St.init d34Q) d34Evs ∧ ¬ Punctual (St.init d34Q) d34Evs ∧
-    (∃ c ∈ dataOf (step (run (St.init d34Q) (d34Evs.take 3)) (.acknack 0 1 [1] 1 1050000000)).2.dgrams,
-      c.sn = 1 ∧ c.ts + 1000000000 ≤ 1050000000) := by
+theorem C29_no_expired_send_asis_counterexample :
+    ¬ SendsFreshAsIs (St.init d34Q) d34Evs ∧ ¬ Punctual (St.init d34Q) d34Evs ∧
+    (∃ c ∈ dataOf (stepAsIs (runAsIs (St.init d34Q) (d34Evs.take 3)) (.acknack 0 1 [1] 1 1050000000)).2.dgrams,
+      c.sn = 1 ∧ c.ts + 1000000000 ≤ 1050000000) ∧
+    (step (run (St.init d34Q) (d34Evs.take 3)) (.acknack 0 1 [1] 1 1050000000)).2.dgrams
+      = [{ reader := 0, subs := [.gap 1 2] }] := by
   have hw : (⟨1, 1, 10, 0⟩ : Change) ∈
-      dataOf (step (run (St.init d34Q) (d34Evs.take 3)) (.acknack 0 1 [1] 1 1050000000)).2.dgrams := by decide
-  have hc : (⟨1, 1, 10, 0⟩ : Change) ∈ (run (St.init d34Q) (d34Evs.take 3)).changes := by decide
-  refine ⟨?_, ?_, ⟨_, hw, rfl, by decide⟩⟩
+      dataOf (stepAsIs (runAsIs (St.init d34Q) (d34Evs.take 3)) (.acknack 0 1 [1] 1 1050000000)).2.dgrams := by decide
+  have hc : (⟨1, 1, 10, 0⟩ : Change) ∈ (runAsIs (St.init d34Q) (d34Evs.take 3)).changes := by decide
+  refine ⟨?_, ?_, ⟨_, hw, rfl, by decide⟩, by decide⟩
   · intro h
     have h4 := h.2.2.2.1 1050000000 rfl 1000000000 rfl _ hw
     simp at h4
@@ -256,59 +280,11 @@ theorem C29_no_expired_send_counterexample :
     have h4 := h.2.2.2.1 1000000000 rfl _ hc
     simp at h4
 
-/-- every event of a run of the repaired worker (fixes/D34.patch: purge before the mail) sends only unexpired changes -/
-def SendsFreshFixed : St → List Ev → Prop
-  | _, [] => True
-  | s, e :: es =>
-    (∀ t, e.now = some t → FreshData s.qos t (stepPurgeFirst s e).2.dgrams) ∧ SendsFreshFixed (stepPurgeFirst s e).1 es
-
-/-- C29 for the drafted repair of D34 (fixes/D34.patch: the worker calls remove_stale_writer_samples before it
-    handles a mail): NO event list - whatever the times, late timers included - sends an expired change. (Full
-    statement, about `stepPurgeFirst`; the delivered driver models the pinned code, see notes/w2c.md.) -/
-theorem C29_no_expired_send_with_D34_patch (s : St) (evs : List Ev) : SendsFreshFixed s evs := by
-  induction evs generalizing s with
-  | nil => trivial
-  | cons e es ih =>
-    refine ⟨?_, ih _⟩
-    intro t ht
-    have hq := (removeStale_frame s t).1
-    cases e with
-    | write k v ts now =>
-      have : now = t := by simpa [Ev.now] using ht
-      subst this
-      have := (methodWrite_fresh (removeStale s now) k v ts now (removeStale_fresh s now)).2
-      rw [hq] at this
-      exact this
-    | acknack rid base set count now =>
-      have : now = t := by simpa [Ev.now] using ht
-      subst this
-      have := (onAcknack_fresh (removeStale s now) rid base set count now (removeStale_fresh s now)).2
-      rw [hq] at this
-      exact this
-    | tick now =>
-      have : now = t := by simpa [Ev.now] using ht
-      subst this
-      exact (C29_tick_sends_fresh s now).1
-    | matchReader rid rel tl => simp [Ev.now] at ht
-
-/-- with the repair the D34 event list answers the late ACKNACK with a GAP -/
-example : (stepPurgeFirst (run (St.init d34Q) (d34Evs.take 3)) (.acknack 0 1 [1] 1 1050000000)).2.dgrams
-    = [{ reader := 0, subs := [.gap 1 2] }] := by decide
-
-/-- non-vacuity of the partial theorem: the same traffic with a punctual timer (the iteration at the expiry instant
-    t = 1 s runs first) is a punctual run, and the late ACKNACK is answered with a GAP, not with DATA -/
-def okEvs : List Ev :=
-  [.matchReader 0 true false, .write 1 10 0 0, .tick 0, .tick 1000000000, .acknack 0 1 [1] 1 1050000000]
-
-example : Punctual (St.init d34Q) okEvs ∧
-    (step (run (St.init d34Q) (okEvs.take 4)) (.acknack 0 1 [1] 1 1050000000)).2.dgrams
-      = [{ reader := 0, subs := [.gap 1 2] }] := by
-  refine ⟨?_, by decide⟩
-  refine ⟨trivial, ?_, trivial, trivial, ?_, trivial⟩
-  · intro l _ c hc; simp [St.init, step, matchReader] at hc
-  · intro l _ c hc
-    have : (run (St.init d34Q) (okEvs.take 4)).changes = [] := by decide
-    simp only [okEvs, List.take, run] at this
-    simp [this] at hc
+/-- non-vacuity: a late joiner after the expiry of the only stored sample gets a GAP and a heartbeat, no DATA; a
+    sample that is still alive is sent to it (history) -/
+example :
+    dataOf (step (step (run (St.init d34Q) [.write 1 10 0 0, .tick 0]) (.matchReader 0 true true)).1 (.tick 1200000000)).2.dgrams = [] ∧
+    dataOf (step (step (run (St.init d34Q) [.write 1 10 0 0, .tick 0]) (.matchReader 0 true true)).1 (.tick 900000000)).2.dgrams
+      = [⟨1, 1, 10, 0⟩] := by decide
 
 end DustVerif.Wrt
